@@ -196,3 +196,73 @@ impl<T: std::io::Seek> std::io::Seek for Held<T> {
         self.0.seek(pos)
     }
 }
+
+
+/// A listing is an `Iterator`: however it is consumed (`nth`, `skip`, `step_by`, `last`, `count`,
+/// `size_hint`) it must deliver the same multiset of names as plain iteration. `fresh` returns a
+/// new listing of the same directory (as strings); the order may differ between two listings, so
+/// only membership, multiplicity and counts are compared.
+pub fn listing_iterator_contract(fresh: &dyn Fn() -> Option<Box<dyn Iterator<Item = String>>>) -> Result<(), String> {
+    let Some(it) = fresh() else { return Ok(()) };
+    let mut full: Vec<String> = it.collect();
+    full.sort();
+    let n = full.len();
+    let check = |what: String, got: Vec<String>, want_len: usize| -> Result<(), String> {
+        let mut g = got.clone();
+        g.sort();
+        let dup = g.windows(2).any(|w| w[0] == w[1]);
+        let foreign = g.iter().any(|x| full.binary_search(x).is_err());
+        if dup || foreign || g.len() != want_len {
+            return Err(format!("{} yields {} names{}{} where plain iteration yields {} (so {} expected): {:?}", what, g.len(), if dup { " with a repeated name" } else { "" }, if foreign { " with a name that plain iteration does not list" } else { "" }, n, want_len, got.iter().take(6).collect::<Vec<_>>()));
+        }
+        Ok(())
+    };
+    for k in [0usize, 1, 2, n.saturating_sub(1), n, n + 1] {
+        if let Some(it) = fresh() {
+            check(format!("skip({})", k), it.skip(k).collect(), n.saturating_sub(k))?;
+        }
+        if let Some(mut it) = fresh() {
+            let first = it.nth(k);
+            if first.is_some() != (k < n) {
+                return Err(format!("nth({}) is {:?} on a listing of {} names", k, first, n));
+            }
+            let mut got: Vec<String> = first.into_iter().collect();
+            got.extend(it);
+            check(format!("nth({}) followed by the rest", k), got, if k < n { n - k } else { 0 })?;
+        }
+    }
+    for step in [2usize, 3] {
+        if let Some(it) = fresh() {
+            check(format!("step_by({})", step), it.step_by(step).collect(), (n + step - 1) / step)?;
+        }
+    }
+    if let Some(it) = fresh() {
+        let (lo, hi) = it.size_hint();
+        if lo > n || hi.map(|h| h < n).unwrap_or(false) {
+            return Err(format!("size_hint() = ({}, {:?}) on a listing of {} names", lo, hi, n));
+        }
+        let c = it.count();
+        if c != n {
+            return Err(format!("count() = {} on a listing of {} names", c, n));
+        }
+    }
+    if let Some(mut it) = fresh() {
+        // partially consumed, then the hint and the remainder
+        let a = it.next();
+        let (lo, hi) = it.size_hint();
+        let rest: Vec<String> = it.collect();
+        if a.is_some() != (n > 0) || lo > rest.len() || hi.map(|h| h < rest.len()).unwrap_or(false) {
+            return Err(format!("after one next(): size_hint ({}, {:?}) but {} names remain of {}", lo, hi, rest.len(), n));
+        }
+        let mut got: Vec<String> = a.into_iter().collect();
+        got.extend(rest);
+        check("next() followed by the rest".into(), got, n)?;
+    }
+    if let Some(it) = fresh() {
+        let l = it.last();
+        if l.is_some() != (n > 0) || l.map(|x| full.binary_search(&x).is_err()).unwrap_or(false) {
+            return Err(format!("last() is wrong on a listing of {} names", n));
+        }
+    }
+    Ok(())
+}
